@@ -144,3 +144,45 @@
         }
         core::mem::forget(data);
     }
+
+    /// C13: large parameters.  The 16-bit parameter length is unsigned: for the declared lengths L = 32764, 32768, 32772
+    /// (both sides of 2^15) a parameter of L zero bytes followed by the sentinel is found by seek_to_pid with exactly
+    /// L bytes, and a parameter written after it is still found (an octet sequence such as USER_DATA of 32 KiB or more must
+    /// not cut the list short).
+    /// @props C13
+    /// @kind bounded
+    /// @tier thorough
+    /// @timeout 3000
+    /// @bounds one large zero-filled parameter with length in {32764, 32768, 32772} followed by a u32 parameter; little endian
+    /// @fn PidIterator::next, ParameterList::seek_to_pid
+    #[cfg_attr(kani, kani::proof)]
+    fn c13_parameter_length_is_unsigned_16_bit() {
+        let k: u8 = kani::any();
+        kani::assume(k >= 7 && k <= 9);
+        let l: usize = 32736 + 4 * k as usize; // 32764, 32768, 32772
+        let mut data: Vec<u8> = alloc::vec![0u8; 4 + 4 + 32800 + 8 + 4];
+        data[1] = 3; // PL_CDR_LE
+        data[4] = 0x2c; // PID_USER_DATA
+        data[5] = 0;
+        data[6] = (l & 0xff) as u8;
+        data[7] = (l >> 8) as u8;
+        let p = 8 + l;
+        data[p] = 0x58;
+        data[p + 1] = 0;
+        data[p + 2] = 4;
+        data[p + 3] = 0;
+        data[p + 4] = 0xAB;
+        data[p + 8] = 1; // sentinel
+        match ParameterList::new(&data) {
+            Ok(pl) => {
+                match pl.seek_to_pid(0x2c) {
+                    Ok(Some(v)) => assert!(v.len() == l, "C13: a parameter of 32 KiB or more is read with its full length"),
+                    _ => assert!(false, "C13: a parameter of 32 KiB or more is found"),
+                }
+                assert!(matches!(pl.get_non_optional_parameter::<u32>(0x58), Ok(0xAB)), "C13: parameters after a large one are still found");
+            }
+            Err(_) => assert!(false),
+        }
+        kani::cover!(l == 32768);
+        core::mem::forget(data);
+    }
